@@ -224,7 +224,7 @@ def impl_effects(steps, sess_alive_views):
 
 def run_gate(chk, build, factor):
     quick = chk.tier == "quick"
-    cases = gen_live(chk, (1500 if quick else 30000) * factor)
+    cases = gen_live(chk, (1500 if quick else 20000) * factor)
     lines = [live_line(c) for c in cases]
     impl = run_harness(build, "eng_gate", lines, shards=8)
     parsed = [parse_term(x) for x in impl]
@@ -352,7 +352,7 @@ def gen_unit(chk, n):
 
 def run_units(chk, build, factor):
     quick = chk.tier == "quick"
-    cases = gen_unit(chk, (1500 if quick else 30000) * factor)
+    cases = gen_unit(chk, (1500 if quick else 20000) * factor)
     lines = [f"unit {k} {adv} " + " ; ".join(ops) for k, adv, ops in cases]
     impl = run_harness(build, "eng_gate", lines, shards=8)
     parsed = [parse_term(x) for x in impl]
